@@ -41,7 +41,7 @@ FLOORS = {'quick': {'case_held': 400, 'nontrivial': 250}, 'thorough': {'case_hel
 COVER_FLOORS = {"quick": {"passes_held": ["expand_indices", "remove_component_tensors", "renumber_indices"]}, "thorough": {"passes_held": ["expand_indices", "remove_component_tensors", "renumber_indices"]}}
 CELLS = [("interval", 1), ("triangle", 2), ("triangle", 2), ("tetrahedron", 3)]
 PASSES = ["expand_indices", "remove_component_tensors", "renumber_indices"]
-TEMPLATES = ["shadow-ct", "variable-components", "nested-variables", "zero-free", "ct3", "sibling-reuse", "capture", "gen", "gen", "gen"]
+TEMPLATES = ["shadow-ct", "variable-components", "nested-variables", "zero-free", "zero-free-rect", "ct3", "sibling-reuse", "capture", "gen", "gen", "gen"]
 
 
 def hostile(rng, U, G, name):
@@ -71,6 +71,17 @@ def hostile(rng, U, G, name):
         T = as_tensor(z + A[i, j], (j, i))
         Z2 = as_tensor(0 * w[i] * u[j], (i, j))
         return (T[i, j] + Z2[i, j]) * Bm[i, j] + as_tensor(z, (i, j))[j, i] * Bm[i, j]
+    if name == "zero-free-rect":
+        # zeros that keep two free indices of DIFFERENT extents (inside conditional branches), bound in both orders
+        m = 5 - n  # 2 <-> 3
+        a, b = G.expr((n,), 1), G.expr((m,), 1)
+        R = G.expr((m, n), 1)
+        c1, c2 = G.expr((), 0), G.expr((), 1)
+        Z = ufl.conditional(ufl.lt(c1, c2), 0 * a[i] * b[j], a[i] * b[j])
+        Z2 = ufl.conditional(ufl.gt(c1, c2), a[j] * b[i], 0 * (a[j] * b[i]))
+        T = as_tensor(Z, (j, i))
+        T2 = as_tensor(Z2, (i, j))
+        return T[k, l] * R[k, l] + T2[i, j] * R[i, j] + as_tensor(0 * b[i] * a[j], (i, j))[k, l] * R[k, l]
     if name == "ct3":
         T1 = as_tensor(A[i, j] * Bm[j, k], (i, k))
         T2 = as_tensor(T1[k, i] * w[i], (k,))
